@@ -282,7 +282,7 @@ pub fn run_decode(a: &Args, out: &mut Out) {
     {
         let poolq = load_pool(&a.pool, "Fq");
         for (i, v) in poolq.cvt.iter().enumerate() {
-            if !thorough && (i as u64 + a.seed) % 4 != 0 { continue; }
+            if !thorough && (i as u64 + a.seed % 1000003) % 4 != 0 { continue; }
             let mut c = vec![2u8 + (i % 2) as u8];
             c.extend_from_slice(v);
             decode_ev::<G1>(out, "cmp", &c);
